@@ -11,7 +11,8 @@
 (*    anything else ("int","name","str","bool","null","real") is a leaf.    *)
 (* A document is                                                            *)
 (*    [objs |-> [Id -> obj], trailer |-> pairs, max_id |-> Nat,             *)
-(*     bms |-> Seq(Id)  (targets of the bookmarks, in bookmark-id order),   *)
+(*     bms |-> Seq(Id)  (targets of ALL entries of bookmark_table, in id    *)
+(*                       order, whatever the shape of the outline forest),   *)
 (*     pages |-> Seq(Id) (the observed page sequence)]    Id = <<n, g>>.    *)
 (*                                                                          *)
 (* Two layers (DESIGN 2.9):                                                 *)
